@@ -908,7 +908,7 @@ def _read_cases(tier, labels):
     the other containers within one deviation from that (quick: paired with a
     subset of the shapes of the other argument, plus three cases in which both
     are not lists; on lists of three only when the three recordings differ) or
-    in full product (thorough)."""
+    in full product (thorough; fnames as a tuple in six of the cases)."""
     klist = [k for k in KW_SHAPES if k.startswith("list")]
     cases = [(k, d, "list", "list", "list") for k in KW_SHAPES for d in DFN_SHAPES]
     cases.append(("list-trim", "list", "list", "list", "tuple"))
@@ -929,10 +929,13 @@ def _read_cases(tier, labels):
             for d in DFN_SHAPES:
                 for kc in (KW_CONTAINERS if k in klist else ["list"]):
                     for dc in (DFN_CONTAINERS if d == "list" else ["list"]):
-                        for fc in ("list", "tuple"):
-                            c = (k, d, kc, dc, fc)
-                            if c not in cases and (kc, dc) != ("list", "list"):
-                                cases.append(c)
+                        c = (k, d, kc, dc, "list")
+                        if c not in cases:
+                            cases.append(c)
+        cases += [("list-trim", "list", "generator", "generator", "tuple"),
+                  ("list-format", "list", "tuple", "ndarray", "tuple"),
+                  ("list-trim", "none", "iter", "list", "tuple"),
+                  ("trim", "list", "list", "map", "tuple")]
     return cases
 
 
@@ -1046,6 +1049,24 @@ def _one_read(root, ctx, entries, labels, kshape, dshape, bare, kcont="list", dc
     ctx.count("validated")
     if any(isinstance(r, tuple) for r in rf):
         return
+    failed = (isinstance(got, tuple) or not isinstance(got, list) or len(got) != m or
+              any(_obs_digest(_obs(g)) != _obs_digest(_obs(r)) for g, r in zip(got, rf)))
+    if failed and kw_before is not None and m > 1 and not bare:
+        # options given once as ONE dict: does every recording read correctly by a read() call of
+        # its own (same argument shapes, a fresh copy of the dict)?  Then the failure needs the
+        # recordings handled earlier in the same call, and is keyed as that.
+        solo_ok = True
+        for i, e in enumerate(entries):
+            ctx.count("transitions")
+            try:
+                one = DW.read([e["fnames"]], obspy_read_kwargs=dict(kw_before),
+                              degrees_from_north=(_contain([d_each[i]], dcont) if dlist else d_arg))
+                solo_ok = solo_ok and len(one) == 1 and _obs_digest(_obs(one[0])) == _obs_digest(_obs(rf[i]))
+            except Exception:       # noqa: BLE001
+                solo_ok = False
+        detail["every_recording_reads_correctly_in_a_read_call_of_its_own"] = solo_ok
+        if solo_ok:
+            key_base, suffix = "C07:read():one-options-dict-for-all:outcome-depends-on-earlier-recordings", True
     if isinstance(got, tuple) and got and got[0] == "raised":
         ctx.outcome(("read-raised", kshape, dshape, got[1]))
         ctx.violation(key_base + (":raised" if suffix else ""), root, detail=detail,
@@ -1467,6 +1488,64 @@ def run_example(root, ctx, tier):
 
 
 # ---------------------------------------------------------------------------
+# observed only: ways of calling read() that the statement does not pin.  What
+# happens today is counted (evidence), nothing here can produce a violation.
+
+def run_observe(root, ctx, tier):
+    import collections
+    import decimal
+    import fractions
+    import types
+    wd = tempfile.mkdtemp(prefix="hvmc-c07-")
+    try:
+        labels = ["mseed1", "saf", "gcf1"]
+        entries = [build_pool_entry(wd, lab, i) for i, lab in enumerate(labels)]
+        fn = [e["fnames"] for e in entries]
+        cases = {
+            "dfn_once_numpy_float64": dict(degrees_from_north=np.float64(33)),
+            "dfn_once_numpy_float32": dict(degrees_from_north=np.float32(33)),
+            "dfn_once_numpy_int64": dict(degrees_from_north=np.int64(33)),
+            "dfn_once_0d_array": dict(degrees_from_north=np.array(33.0)),
+            "dfn_once_fraction": dict(degrees_from_north=fractions.Fraction(33)),
+            "dfn_once_decimal": dict(degrees_from_north=decimal.Decimal(33)),
+            "dfn_once_str": dict(degrees_from_north="33"),
+            "dfn_list_shorter_than_fnames": dict(degrees_from_north=[10, 20]),
+            "dfn_list_longer_than_fnames": dict(degrees_from_north=[10, 20, 400, 50]),
+            "dfn_deque": dict(degrees_from_north=collections.deque([10, 20, 400])),
+            "kwargs_list_shorter_than_fnames": dict(obspy_read_kwargs=[{}, {}]),
+            "kwargs_once_mappingproxy": dict(obspy_read_kwargs=types.MappingProxyType({})),
+            "fnames_generator": dict(fnames=(f for f in fn)),
+            "fnames_ndarray": dict(fnames=np.array(fn, dtype=object)),
+        }
+        for name, kw in cases.items():
+            kw = dict(dict(fnames=list(fn)), **kw)
+            ctx.count("states")
+            ctx.count("transitions")
+            got = None
+            try:
+                got = DW.read(**kw)
+                how = (f"returned_{len(got)}_of_3_recordings")
+            except Exception as e:      # noqa: BLE001
+                how = "raised_" + type(e).__name__
+            ctx.count(f"observed_read_{name}_{how}")
+            ctx.outcome(("observe", name, how))
+            # JUDGED: one real number "given once" must reach every recording, whatever its number type
+            if name in ("dfn_once_numpy_float64", "dfn_once_numpy_float32", "dfn_once_numpy_int64",
+                        "dfn_once_0d_array", "dfn_once_fraction"):
+                ctx.count("validated")
+                ok = got is not None and len(got) == 3 and all(abs(float(r.degrees_from_north) - 33.0) < 1e-9
+                                                               for r in got)
+                if not ok:
+                    ctx.violation("C07:read():degrees_from_north-given-once-as-non-builtin-real-number:not-repeated",
+                                  root, detail=dict(case=name, value=repr(kw["degrees_from_north"])),
+                                  expected="3 recordings with degrees_from_north == 33", observed=how,
+                                  explanation="a single real number given once for degrees_from_north was not handed "
+                                              "to every recording")
+    finally:
+        shutil.rmtree(wd, ignore_errors=True)
+
+
+# ---------------------------------------------------------------------------
 # runner interface
 
 def _family_roots(fam, k):
@@ -1508,6 +1587,7 @@ def roots(tier, seed):
     out += _read_lists(tier)
     out += _history_roots(tier)
     out += [dict(family="examples", name=name) for name in EXAMPLES]
+    out.append(dict(family="observe"))
     return out
 
 
@@ -1521,6 +1601,8 @@ def run_root(root, ctx, tier):
         run_example(root, ctx, tier)
     elif fam == "history":
         run_history(root, ctx, tier)
+    elif fam == "observe":
+        run_observe(root, ctx, tier)
     else:
         run_family(root, ctx, tier)
 
@@ -1547,6 +1629,12 @@ def finalize(ctx, tier):
                                       and c.get("history_wellformed_over_other_wellformed", 0)):
         ctx.violation("C07:harness:vacuous-history", None,
                       explanation="no read of a well-formed content written over a malformed / another well-formed one")
+    if c.get("validated", 0) and not (c.get("in_memory_reads", 0) and c.get("in_memory_second_reads", 0)
+                                      and c.get("read_container_cases", 0) and c.get("shared_dict_calls", 0)
+                                      and c.get("read_mixed_formats_one_dict", 0)):
+        ctx.violation("C07:harness:vacuous-input-shapes", None,
+                      explanation="no in-memory file / second read of a stream / per-recording values in another "
+                                  "container than a list / shared options dict / mixed-format list was run")
     ctx.notes["sizes"] = {fam: product.size({**SPACES[fam]["file"], **SPACES[fam]["read"]}, K[tier][fam])
                           for fam in SPACES}
 
@@ -1557,11 +1645,23 @@ def describe(tier):
         rule="per format a space of file configurations (sample alphabet: distinct ramps per channel, int32 "
              "extremes, values inexact in float32; lengths 1/2/17/1000; rates; channel naming; byte order / "
              "line ending / header scaling / orientation metadata) x read options (degrees_from_north in "
-             "{None,0,33,400,-45}, obspy_read_kwargs, str/Path/tuple file names); every case within k deviations "
+             "{None,0,33,400,-45}, obspy_read_kwargs, file names as str/Path/tuple or the files as in-memory "
+             "io.BytesIO / io.StringIO objects, the same stream objects read a second time for SAC, SAF, MiniShark "
+             "and PEER); every case within k deviations "
              "from the default is run, and inside every file configuration ALL 6 orders of the traces in the file "
              "/ files in the list (SAF: 6 column layouts); plus every listed malformed variant (must raise) and "
-             "read() on every list of 1-3 recordings from a pool x 5 kwargs shapes x 3 degrees_from_north shapes "
-             "(covering the 9 None/one value/list combinations), each element compared with read_single; plus, per "
+             "read() on every list of 1-3 recordings from a pool (plus the listed lists that mix PEER / SAC with "
+             "miniSEED / GCF recordings) x 6 kwargs shapes (None, three dicts without a 'format' entry given once, "
+             "two per-recording lists) x 3 degrees_from_north shapes (covering the 9 None/one value/list "
+             "combinations), each element compared with read_single called with that recording's own arguments "
+             "and fresh dicts, and the number of recordings with the number of entries; the per-recording values "
+             "also as tuple / ndarray / generator / iter(list) / map object and fnames as tuple (quick: one "
+             "argument not a list at a time, paired with a subset of the shapes of the other, plus three cases "
+             "with both; on lists of three only when the three recordings differ; thorough: full product of the "
+             "two containers); for "
+             "every dict shape also read_single for one recording after the other with ONE shared dict object; "
+             "a failure of read() with the options given once that does not show when every recording is read "
+             "by a read() call of its own is keyed one-options-dict-for-all; plus, per "
              "format, ALL histories of a fixed length over a step alphabet of well-formed and malformed contents "
              "written to the SAME file name(s) inside one process (write, read, overwrite, read ...; all 6 orders "
              "at every step), every read judged with the per-format oracle for what the files hold at that "
@@ -1570,7 +1670,12 @@ def describe(tier):
              "rewritten-after-successful-read. A case is distinct by (family, file configuration, order, read "
              "options) resp. (format, history, order, read options).",
         bounds=dict(deviations=k, orders=6, malformed_variants={f: len(v) for f, v in MALFORMED.items()},
-                    read_pool=READ_POOL[tier], read_list_lengths=[1, 2, 3],
+                    read_pool=READ_POOL[tier], read_list_lengths=[1, 2, 3], read_mixed_lists=READ_MIXED[tier],
+                    read_kwargs_shapes=KW_SHAPES, read_kwargs_containers=KW_CONTAINERS,
+                    read_degrees_from_north_containers=DFN_CONTAINERS,
+                    read_calls_per_list_of_three_different_recordings=len(_read_cases(tier, ["a", "b", "c"])),
+                    in_memory=dict(first_read=[f for f in SPACES if "memory" in SPACES[f]["read"]["pathtype"]],
+                                   second_read_of_the_same_streams=list(REWINDING)),
                     history={fam: dict(steps=_hist_alphabet(fam, tier)[0], length=_hist_alphabet(fam, tier)[1]["depth"],
                                        sequences=len(_hist_alphabet(fam, tier)[0]) ** _hist_alphabet(fam, tier)[1]["depth"],
                                        reads=HIST_READS[tier]) for fam in SPACES},
@@ -1592,6 +1697,20 @@ def describe(tier):
             "(62.5 Hz, 15.5 degrees) is part of the SAF alphabet, reported under its own input class",
             "explicit degrees_from_north is compared modulo 360 (x % 360 in [0, 360))",
             "a three-file list in which one file holds surplus traces is only counted, not judged",
+            "in-memory files: io.BytesIO for miniSEED / SAC / GCF, io.StringIO (text as open(path).read() returns "
+            "it, i.e. with translated line endings) for SAF / MiniShark / PEER, positioned at the start, taken as a "
+            "supported way of handing a file over because the readers test for these types; NOT judged, only "
+            "counted (observed_in_memory_*): an in-memory GCF file read with the default options (refused today: "
+            "the miniSEED trial leaves the stream in the middle and the GCF reader does not rewind) and a second "
+            "read of the same miniSEED / GCF stream object (those readers do not rewind; refused today)",
+            "per-recording arguments of read(): list, tuple, numpy float array (degrees_from_north), generator, "
+            "iter(list) and map object are taken as 'iterable of floats / dicts'; numpy scalars other than float64, "
+            "Fraction / Decimal given once (TypeError today), per-recording lists shorter than fnames (recordings "
+            "silently dropped today), a non-dict mapping given once and fnames as a generator or ndarray are only "
+            "observed (family 'observe', counters observed_read_*)",
+            "whether the caller's options dict is left as it was is NOT judged (the SAC reader records the byte "
+            "order it tries in the dict it is given, today; counted as observed_callers_options_dict_changed_*); "
+            "judged is that every recording comes out as with a dict of its own",
             "the repository's example files are read from /repo/test/data/input when present",
             "histories: every sequence runs in its own fresh directory inside the worker process that also runs "
             "other roots, so hidden state keyed by something other than the path may carry over between sequences; "
